@@ -53,20 +53,31 @@ func runC06(c *hc.Ctx) error {
 		chainStream(c, 5, 9, 0, true, false)
 	}
 	// tile matrices deeper than level 32 (pixel addresses no longer fit the 32-bit Morton halves)
-	for _, name := range []string{"UPSArcticWGS84Quad", "NZTM2000Quad", "NetherlandsRDNewQuad"} {
+	for _, name := range []string{"UPSArcticWGS84Quad", "NZTM2000Quad", "NetherlandsRDNewQuad", "WebMercatorQuad"} {
 		t, err := loadSet(name)
 		if err != nil {
 			continue
 		}
 		for k := 0; k < c.N(6, 60); k++ {
 			id := maxID(t) - c.Rng.Intn(3)
+			atEdge := false
+			if name == "WebMercatorQuad" { // exactly level 32: the deepest grid that can be keyed; polygons in its last pixel columns / rows
+				id, atEdge = 20, true
+			}
 			g, err := gridFor(name, t, id, false)
-			if err != nil || g.Deep <= 32 || g.Res < 8 {
+			if err != nil || (g.Deep <= 32 && !atEdge) || g.Deep < 32 || g.Res < 8 {
 				continue
 			}
 			size := int64(1) << g.Deep
 			var ring []Pt
 			bx, by := c.Rng.Int63n(size-8), c.Rng.Int63n(size-8)
+			if atEdge {
+				if c.Rng.Intn(2) == 0 {
+					bx = size - 8
+				} else {
+					by = size - 8
+				}
+			}
 			for v := 0; v < 4; v++ {
 				x, _ := fixRoundTrip(g.Ext[0] + (bx+c.Rng.Int63n(8))*g.Res + g.Res/2)
 				y, _ := fixRoundTrip(g.Ext[1] + (by+c.Rng.Int63n(8))*g.Res + g.Res/2)
